@@ -329,7 +329,23 @@ func (w *World) checkCmpWrapper(r *Report, op string, fn *ssa.Function) {
 		return
 	}
 	pos := w.instrPos(d.call)
-	s, _ := constString(through(d.opV))
+	// (the operator may travel as a value of a named string type: comparison("=").apply(...))
+	peel := func(v ssa.Value) ssa.Value {
+		for {
+			switch x := v.(type) {
+			case *ssa.Convert:
+				if isStringType(x.X.Type()) && isStringType(x.Type()) {
+					v = x.X
+					continue
+				}
+			case *ssa.ChangeType:
+				v = x.X
+				continue
+			}
+			return v
+		}
+	}
+	s, _ := constString(peel(through(peel(d.opV))))
 	if s != op {
 		r.bad("A-OPS", key, pos, fmt.Sprintf("the function bound to %q asks the comparison table for %q", op, s))
 		return
@@ -760,7 +776,54 @@ func (w *World) typeIndexer() (fn *ssa.Function, idx map[string]int64, nvals int
 			}
 		}
 	}
+	if len(idx) < 4 {
+		// the index function written differently (a table of kinds, guard
+		// clauses): its value for an operand of each Go type, by interpretation
+		if idx2, n2, ok := w.typeIndexByInterp(fn); ok {
+			return fn, idx2, n2
+		}
+	}
 	return fn, idx, len(vals)
+}
+
+// typeIndexByInterp: the operand-type index function followed by constant
+// propagation on an operand of each of the four Go types XPath values have.
+func (w *World) typeIndexByInterp(fn *ssa.Function) (map[string]int64, int, bool) {
+	if len(fn.Params) != 1 || len(w.census.Types) == 0 {
+		return nil, 0, false
+	}
+	dyn := map[string]types.Type{
+		"float64": types.Typ[types.Float64],
+		"string":  types.Typ[types.String],
+		"bool":    types.Typ[types.Bool],
+		"query":   types.NewPointer(w.census.Types[0].Named),
+	}
+	idx := map[string]int64{}
+	vals := map[int64]bool{}
+	for name, t := range dyn {
+		ai := w.newInterp(AHooks{})
+		arg := AVal{Kind: avUnknown, Dyn: t, Tag: "operand"}
+		got := int64(-1)
+		for _, o := range ai.Exec(fn, []AVal{arg}, nil, w.initState()) {
+			if o.Cut {
+				return nil, 0, false
+			}
+			if o.Panicked {
+				continue
+			}
+			k, ok := o.Ret.Int()
+			if !ok || (got >= 0 && got != k) {
+				return nil, 0, false
+			}
+			got = k
+		}
+		if got < 0 {
+			return nil, 0, false
+		}
+		idx[name] = got
+		vals[got] = true
+	}
+	return idx, len(vals), true
 }
 
 func (w *World) typeKey(t types.Type) string {
